@@ -45,7 +45,7 @@ def run(ctx):
         ctx.check(ok, 'C13.1', 'pipeline:%s' % mode, f_main.loc(calls[0].node if calls else None),
                   'mode %s feeds the one ConnectionManager / Controller / Output of this run through %s' % (mode, fn),
                   'mode %s is wired as %s' % (mode, [e.text[:100] for e in calls]))
-        lp = [e for e in p.events if e.kind == 'call' and e.ftext == 'protocol.load_all']
+        lp = [e for e in p.events if e.calls('protocol.load_all')]
         ctx.check(len(lp) == 1 and p.events.index(lp[0]) < p.events.index(calls[0]) if calls else False, 'C13.1', 'protocols-loaded-first:%s' % mode, f_main.loc(), 'protocol descriptions are loaded before input is processed')
     streams = {'main.piped_input_main': 'sys.stdin', 'main.file_input_main': 'open(file_path', 'runner.run_program': 'os.fdopen(os.pipe()[0]'}
     for q, stream in streams.items():
@@ -54,7 +54,7 @@ def run(ctx):
         for p in paths_of(repo, f, asserts='ignore'):
             if p.outcome[0] == 'raise':
                 continue
-            calls = [e for e in p.events if e.kind == 'call' and e.ftext == 'parse.into_sink']
+            calls = [e for e in p.events if e.calls('parse.into_sink')]
             n += 1
             a0 = calls[0].argtext(0) or '' if calls else ''
             ok = len(calls) == 1 and (a0.startswith(stream) or (stream == 'sys.stdin' and a0.startswith('open(sys.stdin.fileno()'))) and calls[0].argtext(1) in ('output',) and calls[0].argtext(2) == 'connection_id_sink'
@@ -93,8 +93,8 @@ def run(ctx):
     bad = []
     nio = 0
     for f in repo.all_funcs():
-        if f.module is not pm:
-            continue
+        if f.module is not pm and not f.qual.startswith(pm.name + '.'):
+            continue            # (a reader class that moved to a module of its own keeps its pinned qualified name)
         for n in f.body_nodes():
             if isinstance(n, ast.Call) and isinstance(n.func, ast.Attribute):
                 if n.func.attr in ('read', 'read1', 'readinto', 'readlines', 'recv', 'peek') or norm(n.func) in ('os.read', 'select.select'):
@@ -155,7 +155,7 @@ def run(ctx):
         pipe = [i for i, e in enumerate(ev) if e.kind == 'call' and e.ftext == 'os.pipe']
         sp = [i for i, e in enumerate(ev) if e.kind == 'call' and e.ftext == '_Subprocess']
         start = [i for i, e in enumerate(ev) if e.kind == 'call' and e.ftext and e.ftext.endswith('.start')]
-        parse = [i for i, e in enumerate(ev) if e.kind == 'call' and e.ftext == 'parse.into_sink']
+        parse = [i for i, e in enumerate(ev) if e.calls('parse.into_sink')]
         join = [i for i, e in enumerate(ev) if e.kind == 'call' and e.ftext and e.ftext.endswith('.join') and 'Thread' in e.ftext]
         ok = len(pipe) == 1 and len(sp) == 1 and len(start) == 1 and len(parse) == 1 and len(join) == 1 and start[0] < parse[0] < join[0]
         ctx.check(ok, 'C13.4', 'run_program:start-parse-join', f_rp.loc(), 'the child thread is started before parsing and joined after the parser saw end of input',
